@@ -13,7 +13,7 @@ def memIncomingSkipsGone : Bool := true
 /-- size enforcer, registering case: every <list>.Remove(e) has e := <list>.Front() and sits in a loop whose condition is <running total> > <parameter of the goroutine>, reached only when e is known non-nil, the nil side leaving that loop with break -/
 def memEvictStopsOnEmpty : Bool := true
 
-/-- mem AddMessage, inside the closure passed to the lock wrapper: one delete(<box>.<map>, key) in a loop whose condition has the conjunct len(<box>.<map>) > <recv>.<cap> (cap = the field initialised from MailboxMsgCap) with <recv>.<cap> > 0 known, key = strconv.Itoa(<box>.<first>) and <box>.<first>++ once per iteration; "collectsAndNotifies" = the deleted value is appended (under the same conditions as the delete) to a slice declared outside the closure, and after the wrapper call a range over that slice reaches AfterMessageDeleted.Emit of the element and the un-registering send carrying the element; "silent" = nothing is collected and AddMessage reaches neither an Emit nor an un-registering send -/
+/-- mem AddMessage, inside the closure passed to the lock wrapper (unexported helpers walked as if inlined): one delete(<box>.<map>, key) in a loop whose condition has the conjunct len(<box>.<map>) > <recv>.<cap> (cap = the field initialised from MailboxMsgCap) with <recv>.<cap> > 0 known, key = strconv.Itoa(<box>.<first>) and <box>.<first>++ once per iteration; "collectsAndNotifies" = the deleted value is appended (under the same conditions as the delete) to a slice declared outside the closure (directly, or in a helper the closure calls that returns the slice on every path and whose result the closure assigns to such a slice), and after the wrapper call a range over that slice reaches AfterMessageDeleted.Emit of the element and the un-registering send carrying the element; "silent" = nothing is collected and AddMessage reaches neither an Emit nor an un-registering send -/
 def memCapEvict : String := "collectsAndNotifies"
 
 /-- mem Message has exactly one field of type atomic.Bool (sync/atomic); Message.Seen is `return <recv>.<that field>.Load()` and Store.MarkSeen reaches exactly one <x>.<that field>.Store(true) -/
